@@ -46,6 +46,7 @@ def run(ctx):
     # 1. model histories (ALT with empty payloads, PoW): per-step comparison + invariant checker after every step
     sc = _tree.Script()
     stats = {}
+    _tree.add_corpus("C07", sc)
     for i in range(40 if quick else 400):
         _tree.random_history("T" if i % 2 == 0 else "P", ctx.rng.fork(), 60 if quick else 150, 16, sc, stats)
     res = _tree.correspondence(ctx, model, harness, sc, "C07")
